@@ -374,6 +374,7 @@ func c08() {
 	type seqT struct {
 		steps    []step
 		trusting bool
+		renewed  bool // the contract has been renewed before the first exchange: nothing may revise it
 	}
 	var seqs []seqT
 	seqLen := 3
@@ -396,18 +397,27 @@ func c08() {
 				s := append(append([]step(nil), prefix...), step{r, m})
 				if m != 0 {
 					for _, tr := range []bool{false, true} {
-						seqs = append(seqs, seqT{append(append([]step(nil), s...), step{r, 0}), tr})
+						seqs = append(seqs, seqT{append(append([]step(nil), s...), step{r, 0}), tr, false})
 					}
 					continue
 				}
 				for _, tr := range []bool{false, true} {
-					seqs = append(seqs, seqT{s, tr})
+					seqs = append(seqs, seqT{s, tr, false})
 				}
 				rec(s)
 			}
 		}
 	}
 	rec(nil)
+	// a renewed contract is final: every honest revising RPC (alone, and after another refused one) must be refused
+	for a := range rpcs {
+		for _, tr := range []bool{false, true} {
+			seqs = append(seqs, seqT{[]step{{a, 0}}, tr, true})
+			for b := range rpcs {
+				seqs = append(seqs, seqT{[]step{{a, 0}, {b, 0}}, tr, true})
+			}
+		}
+	}
 	var mu sync.Mutex
 	outcomes := map[string]bool{}
 	rejected, accepted := 0, 0
@@ -431,6 +441,10 @@ func c08() {
 			accounts := []proto4.Account{acc(rhpx.Key("c08-a")), acc(rhpx.Key("c08-b"))}
 			if seqs[i].trusting {
 				names = append(names, "[trusting contractor]")
+			}
+			if seqs[i].renewed {
+				w.MarkRenewed()
+				names = append(names, "[contract already renewed]")
 			}
 			for _, st := range seqs[i].steps {
 				r, m := rpcs[st.rpc], muts[st.mut]
@@ -465,6 +479,10 @@ func c08() {
 					if call.Revision != nil && call.Err == nil {
 						mutating++
 					}
+				}
+				if seqs[i].renewed && (changed || mutating > 0 || err == nil) {
+					viol = fmt.Sprintf("c08:renewed-contract-revised|%s on a contract that has been renewed: err=%v, %d mutating contractor calls, state changed=%v (the revision can never be accepted on chain)", r.name, err, mutating, changed)
+					return
 				}
 				if (m.mustReject || strings.HasSuffix(r.name, "out-of-range")) && (changed || mutating > 0 || err == nil) {
 					viol = fmt.Sprintf("c08:must-reject-request-had-effect:%s|%s with %s: err=%v, %d mutating contractor calls, state changed=%v", m.name, r.name, m.name, err, mutating, changed)
